@@ -1914,3 +1914,62 @@ def r8(cx):
             cx.violation(root, 'list:%s' % ('all' if stop_at is None else 'divert-at-%d' % stop_at),
                          'a list of three items (divert at %s) executes %s and yields %s; expected %s'
                          % (stop_at, ran, vfmt(o['ret']), want), loc=lloc)
+
+
+# ---------------------------------------------------------------------------------------
+# added after independent seeded changes (see DESIGN.md, seeded-change table)
+@RS.rule('C02.R5c', 'K-GUARD', 'for loop: $? is reset to 0 only when there is no word to iterate over (the first body command sees the previous $?)')
+def r5c(cx):
+    import mirq as Q
+    F = cx.F
+    b = F.main_body('yash_semantics::command::compound_command::for_loop::execute')
+    cx.fn(b.fn)
+    du = Q.DefUse(b)
+    writes = [(blk, j, s) for blk, j, s, kind, f in Q.field_writes(b, 'yash_env::Env', 'exit_status') if kind == 'assign']
+    cx.site('%s: %d direct writes of env.exit_status' % (b.fn, len(writes)))
+    for blk, j, s in writes:
+        conds = Q.dominating_conditions(F, b, du, blk)
+        ok = any(org['k'] == 'call' and Q.callee_is(org['t'], [Q.re.compile(r'::is_empty$')]) and lab == ('bool', True)
+                 and 'Field' in ' '.join(org['t'].get('at', [])) for org, lab, e in conds)
+        cx.site('%s: env.exit_status written at %s (guarded by values.is_empty(): %s)' % (b.fn, b.loc(s), ok))
+        if not ok:
+            cx.violation(b.root, 'status-reset-unguarded', 'the for loop overwrites $? without having established that there is no word to iterate '
+                         'over: the first command of the first iteration (and a bare `return`/`exit` there) must still see the exit status '
+                         'of the command that preceded the loop', loc=b.loc(s))
+
+
+@RS.rule('C02.R9', 'K-TABLE', 'Divert::exit_status carries the status of return/interrupt/exit/abort (so `(return 7)` ends the subshell with 7) and none for break/continue')
+def r9(cx):
+    import hirq as H
+    F = cx.F
+    fn = 'yash_env::semantics::Divert::exit_status'
+    table, m = H.fn_match_table(F, fn, 'yash_env::semantics::Divert')
+    cx.fn(fn)
+    h = F.hir_of(fn)
+    loc = '%s:%s' % (h['file'], h['line'])
+    want = {'Continue': 'None', 'Break': 'None', 'Return': 'payload', 'Interrupt': 'payload', 'Exit': 'payload', 'Abort': 'payload'}
+    for v, (i, body) in table.items():
+        body = H.peel(body)
+        if body.get('k') == 'path' and H.short(body.get('def') or '') == 'None':
+            got = 'None'
+        elif body.get('k') == 'unary' and body.get('op') == '*' and H.peel(body['a']).get('k') == 'local':
+            got = 'payload'
+        elif body.get('k') == 'local':
+            got = 'payload'
+        else:
+            got = body.get('k')
+        cx.cellcount(1)
+        cx.sample({'variant': v, 'exit_status': got})
+        if v not in want:
+            cx.violation(fn, 'unclassified:%s' % v, 'Divert::%s has no row in the reference table' % v, loc=loc)
+        elif got != want[v]:
+            cx.violation(fn, 'cell:%s' % v, 'Divert::%s must yield %s, found %s: the exit status given to `%s` is lost when the divert '
+                         'ends a subshell, a pipeline element or the script' % (v, want[v], got, v.lower()), loc=loc)
+    # apply_result stores it
+    ab = F.body('yash_env::Env::<S>::apply_result')
+    cx.fn(ab.fn)
+    calls = Q.find_calls(ab, [fn])
+    w = [(blk, j, s) for blk, j, s, kind, f in Q.field_writes(ab, 'yash_env::Env', 'exit_status') if kind == 'assign']
+    cx.site('apply_result: %d exit_status() calls, %d writes of env.exit_status' % (len(calls), len(w)))
+    if not calls or not w or not any(ab.dominates(c, blk) for c, _ in calls for blk, j, s in w):
+        cx.violation(ab.fn, 'apply-result', 'Env::apply_result no longer stores Divert::exit_status() into $?', loc=ab.loc(ab.d))
